@@ -20,6 +20,7 @@ func init() {
 			"MTU {4,11,12,13,14,20,100,1200}; a configuration whose MTU cannot carry the descriptor (3 bytes, 11 on the first packet of a non-flexible key frame) plus one byte is outside the property (sufficient MTU)",
 			"P is demanded for key (0) and inter (1) frames in non-flexible mode; for intra-only and show-existing frames nothing is demanded of P and the scalability structure",
 			"large scalability structures: N_G in {4,16,64,85,86,128,255} x R patterns (all 0, all 3, cyclic) x N_S {0,7} x Y, truncations sampled (every cut below 24, every 7th, the last 6)",
+			"large frames: key and inter frames of {65535,65536,65537,70000,140000} bytes (aperiodic content) at MTU {100,1200,65535} in both modes, preceded by a small frame on the same payloader",
 			"frame pairs: a key frame followed on the same payloader by a near-identical one (width or height +-1, other profile, same) and the reverse; the second frame is held to the same per-frame oracle (its own coded size in the scalability structure, picture id +1, lossless)",
 			"decoder: SID >= 5 is not generated (documented library limit); coded width 65536 does not fit the 16-bit SS field and is not used with the non-flexible payloader",
 		},
@@ -29,6 +30,7 @@ func init() {
 			{Name: "header-all-widths", Tiers: "qt", ShardDepth: 2, Run: c12Widths},
 			{Name: "descriptor-decoder", Tiers: "qt", ShardDepth: 3, Run: c12Decoder},
 			{Name: "descriptor-large-picture-groups", Tiers: "qt", ShardDepth: 3, Run: c12LargeGroups},
+			{Name: "payloader-large-frames", Tiers: "qt", ShardDepth: 3, Run: c12LargeFrames},
 			{Name: "payloader-near-identical-frame-pairs", Tiers: "qt", ShardDepth: 3, Run: c12Pairs},
 		},
 	})
@@ -614,4 +616,66 @@ func c12CheckFrame(c *mc.Ctx, pkts [][]byte, keep []byte, fh *ref.VP9FrameHeader
 	if !bytes.Equal(got, keep) {
 		c.Failf("frame-differs", "%s: concatenated payloads %s, want %s", desc(), hx(got), hx(keep))
 	}
+}
+
+// c12LargeFrames: frames beyond 16-bit lengths.
+func c12LargeFrames(c *mc.Ctx) {
+	flexible := c.Bool()
+	mtu := mc.From(c, []int{100, 1200, 65535})
+	size := mc.From(c, []int{65535, 65536, 65537, 70000, 140000})
+	fh := &ref.VP9FrameHeader{ShowFrame: true, ColorSpace: 2, Width: 1920, Height: 1080}
+	if c.Bool() {
+		fh = &ref.VP9FrameHeader{NonKey: true, ShowFrame: true}
+	}
+	p := &codecs.VP9Payloader{FlexibleMode: flexible, InitialPictureIDFn: func() uint16 { return 0x7FFF }}
+	small := &ref.VP9FrameHeader{NonKey: true, ShowFrame: true}
+	wantID := uint16(0x7FFF)
+	for fi, f := range []*ref.VP9FrameHeader{small, fh} {
+		n := 40
+		if fi == 1 {
+			n = size
+		}
+		frame := f.Encode(n, byte(fi+1))
+		keep := clone(frame)
+		pkts := p.Payload(uint16(mtu), frame)
+		c.Ops(1)
+		desc := func() string {
+			return fmt.Sprintf("flexible=%v mtu=%d frame %d: %s, %d bytes", flexible, mtu, fi, c12DescribeFrame(f), len(frame))
+		}
+		if c.Verbose() {
+			c.Notef("%s -> %d packets", desc(), len(pkts))
+		}
+		if !bytes.Equal(frame, keep) {
+			c.Failf("input-modified", "%s: Payload changed its input", desc())
+		}
+		if len(pkts) == 0 {
+			c.Failf("no-packets", "%s: no packet returned although the MTU is sufficient", desc())
+		}
+		c12CheckFrameQuiet(c, pkts, keep, f, flexible, mtu, wantID, desc)
+		wantID = (wantID + 1) & 0x7FFF
+	}
+	c.NonTrivial()
+	c.Outcome(fmt.Sprintf("flex=%v size=%d", flexible, size))
+}
+
+// c12CheckFrameQuiet is c12CheckFrame for frames too large to print.
+func c12CheckFrameQuiet(c *mc.Ctx, pkts [][]byte, keep []byte, fh *ref.VP9FrameHeader, flexible bool, mtu int, wantID uint16, desc func() string) {
+	var got []byte
+	for _, pk := range pkts {
+		var d codecs.VP9Packet
+		out, err := d.Unmarshal(pk)
+		if err != nil {
+			break // reported by c12CheckFrame below
+		}
+		got = append(got, out...)
+	}
+	if len(got) != len(keep) {
+		c.Failf("frame-differs", "%s: concatenated payloads have %d bytes, the frame %d", desc(), len(got), len(keep))
+	}
+	for i := range got {
+		if got[i] != keep[i] {
+			c.Failf("frame-differs", "%s: concatenated payloads differ from the frame at offset %d (%#x, frame has %#x)", desc(), i, got[i], keep[i])
+		}
+	}
+	c12CheckFrame(c, pkts, keep, fh, flexible, mtu, wantID, desc)
 }
